@@ -24,7 +24,6 @@ from lxml import etree
 
 from .. import core
 from .. import xmlgen as xg
-from .. import xsdoracle as xo
 from ..canon import canon, canon_diff
 from . import c05
 
@@ -554,7 +553,7 @@ def run(ctx: core.Ctx):
     jobs = [['w_classes', {'classes': [i.key for i in order[k::njobs]]}] for k in range(njobs)]
     nseq = ctx.pick(4, 16)
     jobs += [['w_sequences', {'i': k, 'n': ctx.pick(6, 40), 'steps': ctx.pick(30, 60)}] for k in range(nseq)]
-    core.fanout(ctx, MODULE, 'dispatch', jobs, timeout=ctx.pick(300.0, 2400.0))
+    core.fanout(ctx, MODULE, 'dispatch', jobs, timeout=ctx.pick(600.0, 3000.0))
     ctx.floor('classes.exercised', int(len(infos) * 0.9))
     ctx.floor('baseline.rechecks', 20000)
     ctx.floor('alias.pairs_walked', 3000)
